@@ -9,11 +9,30 @@ import RTV.Gen.Regexes
 import RTV.Gen.CharTables
 import RTV.Gen.Preprocess
 /-! The sequence models end to end on the regenerated data, as `IpAddressModel.parse` / `GUIDModel.parse` /
-`BooleanModel.parse` produce the fields the repository's spec runner compares (type name, text, resolution value,
-score when the spec states one).  `fast*` = ASCII answered by formula, everything else by the tables (proved equal in
-`RTV/Lemmas/SpecRun.lean`). -/
+`BooleanModel.parse` / `AbstractSequenceModel.parse` build a `ModelResult`: type name, text, start, end and the whole
+resolution dict (`SpecEnt`) — every field a Specs case can state.  `fast*` = ASCII answered by formula, everything else
+by the tables (proved equal in `RTV/Lemmas/SpecRun.lean`). -/
 namespace RTV.Seq
 open RTV.Py RTV.Re RTV.Match
+
+/-- a `ModelResult` as a Specs case describes one: `type_name`, `text`, `start`, `end`, and the `resolution` dict as
+(key, text of the value) pairs in insertion order — a `str` value as it is, a `bool` as `True` / `False`, a `float`
+as its `repr` (`0.0`) -/
+structure SpecEnt where
+  typeName : Str
+  text : Str
+  start : Nat
+  stop : Int
+  res : List (Str × Str)
+deriving Repr, DecidableEq, Inhabited
+
+/-- `model_result.end = parse_result.start + parse_result.length - 1` -/
+def entOf (typeName : Str) (r : ER) (res : List (Str × Str)) : SpecEnt :=
+  ⟨typeName, r.text, r.start, (r.start : Int) + r.len - 1, res⟩
+
+def kValue : Str := ofString "value"
+def kScore : Str := ofString "score"
+def kType : Str := ofString "type"
 
 def pyChars : CharClass where
   isSpace c := inRangesArr RTV.Gen.spaceRanges c
@@ -50,20 +69,20 @@ def urlEnvZh (E : SeqEnv) : RTV.Url.UrlEnv :=
   { urlEnvOf E with ipUrl := RTV.Gen.zhIpUrlRegex, url := RTV.Gen.zhUrlRegex, gTld := RTV.Gen.zhUrlRegex_g_Tld }
 
 /-- `AbstractSequenceModel.parse` with a one-regex `SequenceExtractor` (hashtag, mention, e-mail): preprocess,
-finditer, sweep, value = text. Fields: type name, text, value. -/
-def simpleModelRun (E : SeqEnv) (re : RE) (typeName : Str) (q : Str) : List (Str × Str × Str) :=
+finditer, sweep; resolution `{'value': text}` (`AbstractSequenceModel.get_resolution`). -/
+def simpleModelRun (E : SeqEnv) (re : RE) (typeName : Str) (q : Str) : List SpecEnt :=
   match RTV.Preprocess.preprocess RTV.Gen.recodePairs E.lowerC false [] q with
   | none => []
-  | some p => (seqSweep E.K p (tagged "x" (findAll E.T p.toArray re))).map fun r => (typeName, r.text, r.text)
+  | some p => (seqSweep E.K p (tagged "x" (findAll E.T p.toArray re))).map fun r => entOf typeName r [(kValue, r.text)]
 
-/-- `recognize_url(q, culture)` reduced to the fields the spec runner compares -/
-def urlSpecRun (E : SeqEnv) (zh : Bool) (q : Str) : List (Str × Str × Str) :=
+/-- `recognize_url(q, culture)`: every field of the results (`start` / `end` are offsets in the preprocessed query) -/
+def urlSpecRun (E : SeqEnv) (zh : Bool) (q : Str) : List SpecEnt :=
   match RTV.Preprocess.preprocess RTV.Gen.recodePairs E.lowerC false [] q with
   | none => []
   | some p =>
     match RTV.Url.urlExtract (if zh then urlEnvZh E else urlEnvOf E) p with
     | none => []
-    | some ers => ers.map fun r => (ofString "url", r.text, r.text)
+    | some ers => ers.map fun r => entOf (ofString "url") r [(kValue, r.text)]
 
 /-- `recognize_url(q, 'en-us')`: `QueryProcessor.preprocess`, `BaseURLExtractor.extract`, `SequenceParser.parse`
 (value = text); an exception inside the `try` yields no entity. Fields: type name, start, end, text, value. -/
@@ -108,11 +127,14 @@ def phoneExtract (E : SeqEnv) (source : Str) : List ER :=
       (seqSweep E.K source ms)
 
 /-- `recognize_ip_address(q, culture)`: `zh` = the Chinese configuration (zh-*, ja-*), else English. No preprocessing
-(`IpAddressModel.parse` passes the query as it is). Fields: type name, text, resolution `value`. -/
-def ipModelRun (E : SeqEnv) (zh : Bool) (q : Str) : List (Str × Str × Str) :=
+(`IpAddressModel.parse` passes the query as it is).  `IpAddressModel.get_resolution` builds
+`{'value': resolution_str, 'score': str(data.value)}`; `BaseIpParser.parse` never sets `value`, so the score is the text
+`None` — and there is NO `type` key, although the extractor knows `ipv4` / `ipv6` (`r.data`) and the Specs state it. -/
+def ipModelRun (E : SeqEnv) (zh : Bool) (q : Str) : List SpecEnt :=
   let v4 := if zh then RTV.Gen.zhIpv4Regex else RTV.Gen.ipv4Regex
   let v6 := if zh then RTV.Gen.zhIpv6Regex else RTV.Gen.ipv6Regex
-  (ipExtract E.T E.K v4 v6 q).map fun r => (ofString "ip", r.text, dropLeadingZeros r.text)
+  (ipExtract E.T E.K v4 v6 q).map fun r =>
+    entOf (ofString "ip") r [(kValue, dropLeadingZeros r.text), (kScore, ofString "None")]
 
 /-- `'%g' % (n / 100)` for the integer scores `0..100` -/
 def gfmt (n : Int) : Str :=
@@ -120,17 +142,26 @@ def gfmt (n : Int) : Str :=
   if n ≥ 100 then [49] else if n = 0 then [48]
   else if n % 10 = 0 then [48, 46, 48 + n / 10] else [48, 46, 48 + n / 10, 48 + n % 10]
 
-/-- `recognize_guid(q, 'en-us')`: `QueryProcessor.preprocess`, extract, `GUIDParser.parse`.
-Fields: type name, text, resolution `value`, resolution `score`. -/
-def guidModelRun (E : SeqEnv) (q : Str) : List (Str × Str × Str × Str) :=
+/-- `recognize_guid(q, 'en-us')`: `QueryProcessor.preprocess`, extract, `GUIDParser.parse`;
+resolution `{'value': text, 'score': '%g' % score}`. -/
+def guidModelRun (E : SeqEnv) (q : Str) : List SpecEnt :=
   match RTV.Preprocess.preprocess RTV.Gen.recodePairs E.lowerC false [] q with
   | none => []
   | some p =>
     (guidExtract E.T E.K RTV.Gen.guidRegex p).map fun r =>
-      (ofString "guid", r.text, r.text, gfmt (scoreGuid E.T RTV.Gen.guidElementRegex r.text))
+      entOf (ofString "guid") r [(kValue, r.text), (kScore, gfmt (scoreGuid E.T RTV.Gen.guidElementRegex r.text))]
 
-/-- `recognize_boolean(q, 'en-us')`: type name, text, resolution `value` (the runner does not compare the score) -/
-def boolModelRun (E : RTV.Choice.Env) (q : Str) : Option (List (Str × Str × Bool)) :=
-  (RTV.Choice.recognise E q).map fun rs => rs.map fun r => (ofString "boolean", r.text, r.value)
+/-- `repr` of the float a reported boolean score is: `0.0` for the exact zero (all the code reports, see
+`RTV.Choice.parserScore`); any other fraction is shown as `num/den` (no Specs text equals that) -/
+def scoreRepr (s : RTV.Choice.Score) : Str :=
+  if s.num = 0 then ofString "0.0" else ofString s!"{s.num}/{s.den}"
+
+/-- `recognize_boolean(q, 'en-us')`: resolution `{'value': True|False, 'score': <parser's score>}` — the score is the
+default of the `ChoiceExtractDataResult` that `ChoiceParser.parse` builds anew (`RTV.Choice.parserScore`), not the
+extractor's -/
+def boolModelRun (E : RTV.Choice.Env) (q : Str) : Option (List SpecEnt) :=
+  (RTV.Choice.recognise E q).map fun rs => rs.map fun r =>
+    ⟨ofString "boolean", r.text, r.start, r.stop,
+     [(kValue, ofString (if r.value then "True" else "False")), (kScore, scoreRepr r.score)]⟩
 
 end RTV.Seq
